@@ -60,10 +60,16 @@ func checkRead(c *readCase) (msg string, delivered bool) {
 		// determine the complete result: if the input cut off at the fault
 		// offset reads exactly like the whole input, ignoring what follows is
 		// legitimate.
-		full, ferr := tg.Run(bytes.NewReader(c.Data))
-		cut, cerr := tg.Run(bytes.NewReader(c.Data[:c.At]))
-		if ferr == nil && cerr == nil && full == cut {
-			return "", false
+		// This applies to PFB-framed input only, where an end marker closes
+		// the stream and whatever follows it is not part of it; every other
+		// format is read to the end of the input, so a fault anywhere in it is
+		// a fault the call has met.
+		if c.Target == targets.PFB.Name || len(c.Data) > 0 && c.Data[0] == 0x80 {
+			full, ferr := tg.Run(bytes.NewReader(c.Data))
+			cut, cerr := tg.Run(bytes.NewReader(c.Data[:c.At]))
+			if ferr == nil && cerr == nil && full == cut {
+				return "", false
+			}
 		}
 		return fmt.Sprintf("%s: a read fault at offset %d of %d (data with error: %v) was delivered to the library but the call returned no error", c.Target, c.At, len(c.Data), c.WithData), true
 	}
